@@ -393,6 +393,12 @@ class Gen:
                 e = {"op": op, "b": b["id"], "i": i, "p": p}
                 if op == "rep":
                     e["n"] = cnt
+                if op == "ins" and i == 0 and b["code"] and "lines" in p:
+                    fs = [f for f in case["funcs"]
+                          if f["entries"] == [b["id"]]]
+                    if len(fs) == 1 and rng.random() < 0.5:
+                        e["via"] = "fnscope"
+                        e["fn"] = fs[0]["name"]
                 edits.append(e)
             else:
                 edits.append({"op": "del", "b": b["id"], "i": i, "n": cnt,
